@@ -4,7 +4,7 @@ package main
 // under schedules chosen by the harness, for the extracted small-step model (theories/Drain.v)
 // to replay.
 //
-// Every goroutine that takes part (writers, explicit CleanUp callers, and the maintenance tasks
+// Every goroutine that takes part (writers, readers of an existing entry, explicit CleanUp callers, and the maintenance tasks
 // the cache hands to its executor) parks at the protocol's hook points
 //
 //	3  scheduleAfterWrite: before the status load        (model pc WLoad)
@@ -35,6 +35,7 @@ import (
 	"strconv"
 	"strings"
 	"sync"
+	"sync/atomic"
 	"time"
 
 	"github.com/maypok86/otter/v2"
@@ -305,10 +306,19 @@ func runSched(seed uint64, scale int, out string, _ string) *summary {
 			maxW, maxC = 9, 9
 		}
 		ctl := &schedCtl{byGoid: map[int64]*schedThread{}, ev: make(chan schedEvent, 1024)}
-		otter.VerifHook = ctl.hook
+		otter.VerifHook = nil
+		var warm atomic.Bool
+		var warmWG sync.WaitGroup
+		warm.Store(true)
 		c := otter.Must(&otter.Options[int, int]{
 			MaximumSize: 64,
 			Executor: func(fn func()) {
+				if warm.Load() {
+					// warm-up (before the schedule starts): run the task like the default executor, unobserved
+					warmWG.Add(1)
+					go func() { defer warmWG.Done(); fn() }()
+					return
+				}
 				th := ctl.register('T')
 				go func() {
 					ctl.bind(th)
@@ -320,6 +330,20 @@ func runSched(seed uint64, scale int, out string, _ string) *summary {
 		})
 		otter.VerifTreatExecutorAsDefault(c)
 		ctl.c = c
+		// one entry for the readers to hit, written before the schedule starts; the protocol is idle again
+		// (status idle, buffer empty, lock free) when the warm-up task has ended
+		c.Set(0, 0)
+		warmWG.Wait()
+		for i := 0; i < 2000; i++ {
+			if ds, wb := otter.VerifDrainState(c); ds == 0 && wb == 0 && otter.VerifEvictionLockFree(c) {
+				break
+			}
+			time.Sleep(100 * time.Microsecond)
+		}
+		warm.Store(false)
+		otter.VerifHook = ctl.hook
+		maxR := sr.intn(3)
+		nR := 0
 		desc := fmt.Sprintf("schedule %d writers<=%d cleanups<=%d", sc, maxW, maxC)
 		t.line("CASE %d", sc)
 		var script []string
@@ -344,7 +368,8 @@ func runSched(seed uint64, scale int, out string, _ string) *summary {
 			ctl.mu.Unlock()
 			canW := nW < maxW && steps < budget
 			canC := nC < maxC && steps < budget
-			if len(parked) == 0 && !canW && !canC {
+			canR := nR < maxR && steps < budget
+			if len(parked) == 0 && !canW && !canC && !canR {
 				if !allDone {
 					sum.fail("C14", "sched-deadlock", "threads remain that are neither finished nor resumable: the protocol is stuck",
 						fmt.Sprintf("%s script=%s state=%s", desc, strings.Join(script, " "), ctl.observe()))
@@ -364,7 +389,7 @@ func runSched(seed uint64, scale int, out string, _ string) *summary {
 				// scripted step; a step that is not possible ends the script (the rest is random)
 				tok := fixed[0]
 				fixed = fixed[1:]
-				if tok == "NW" || tok == "NC" {
+				if tok == "NW" || tok == "NC" || tok == "NR" {
 					choice = tok[1:]
 				} else if n, err := strconv.Atoi(tok[1:]); err == nil {
 					for _, p := range parked {
@@ -379,12 +404,15 @@ func runSched(seed uint64, scale int, out string, _ string) *summary {
 				}
 			}
 			if choice == "" && pickThread < 0 {
-				nopt := len(parked)
+				var kinds []string
 				if canW {
-					nopt++
+					kinds = append(kinds, "W")
 				}
 				if canC {
-					nopt++
+					kinds = append(kinds, "C")
+				}
+				if canR {
+					kinds = append(kinds, "R")
 				}
 				if sticky >= 0 && sr.chance(60) {
 					for _, p := range parked {
@@ -394,14 +422,11 @@ func runSched(seed uint64, scale int, out string, _ string) *summary {
 					}
 				}
 				if pickThread < 0 {
-					x := sr.intn(nopt)
-					switch {
-					case x < len(parked):
+					x := sr.intn(len(parked) + len(kinds))
+					if x < len(parked) {
 						pickThread = parked[x]
-					case canW && x == len(parked):
-						choice = "W"
-					default:
-						choice = "C"
+					} else {
+						choice = kinds[x-len(parked)]
 					}
 				}
 			}
@@ -424,6 +449,13 @@ func runSched(seed uint64, scale int, out string, _ string) *summary {
 					go func() {
 						ctl.bind(th)
 						c.Set(key, key)
+						ctl.ev <- schedEvent{th.idx, 'F', 0}
+					}()
+				} else if kind == 'R' {
+					nR++
+					go func() {
+						ctl.bind(th)
+						c.GetIfPresent(0) // a hit: afterRead -> shouldDrainBuffers -> possibly scheduleDrainBuffers
 						ctl.ev <- schedEvent{th.idx, 'F', 0}
 					}()
 				} else {
